@@ -165,7 +165,14 @@ func (s *Scheduler) Stop(ctx context.Context) error {
 // It is important that jobs are valid, so care is taken to validate the JobConfiguration before
 // it can be scheduled.
 func (s *Scheduler) AddJob(jobConfig *JobConfiguration) error {
-	err := s.verify(jobConfig)
+	// the definition is stored as it was given. verify() normalises the in-memory copy for the runner
+	// (a reRun handler's retryDelay becomes nanoseconds); storing that form made every later AddJob of the
+	// stored definition (hub start, pause, unpause) scale the delay again
+	asGiven, err := json.Marshal(jobConfig)
+	if err != nil {
+		return err
+	}
+	err = s.verify(jobConfig)
 	if err != nil {
 		return err
 	}
@@ -176,7 +183,7 @@ func (s *Scheduler) AddJob(jobConfig *JobConfiguration) error {
 		return err
 	}
 
-	err = s.Store.StoreObject(server.JobConfigIndex, jobConfig.ID, jobConfig) // store it for the future
+	err = s.Store.StoreObject(server.JobConfigIndex, jobConfig.ID, json.RawMessage(asGiven)) // store it for the future
 	if err != nil {
 		return err
 	}
